@@ -116,7 +116,7 @@ def execute(case):
 
 
 def run(report, tier):
-    kmax = 3 if tier == "thorough" else 2
+    kmax = 3
     cases = []
     for k in range(0, kmax + 1):
         for S in itertools.combinations(UNIVERSE, k):
